@@ -104,6 +104,12 @@ def plan(ctx):
             items.append((c, (0, 0, 1, 1), False, 5000))
         for c in PC.rotate_slice(big, ctx.seed + 1, 16):
             items.append((c, (1, 0, 0, 1), False, 5000))
+        # batch_size='auto' needs several completed batches before the heuristic moves: longer inputs, one
+        # deviating batch duration (grow ... then one slow / one fast batch), no pre-emption
+        auto = [c for c in all_configs(8) if c["batch_size"] == "auto" and c["n"] == 8 and c["input"] == "gen"
+                and c["order"] == "fifo" and c["pre_dispatch"] in (1, "n_jobs", "2*n_jobs")]
+        for c in auto:
+            items.append((c, (0, 2, 0, 2), False, 20000))
     else:
         configs = all_configs(7)
         for c in configs:
